@@ -242,12 +242,26 @@ def shard_random(sh, part, parts):
         S = len(req)
         cap = rng.choice([1, 2, max(1, S - 1), S, S + k, 10 ** 6])
         args = pipe.make_args(heuristic=heuristic, target_ranking_only=str(target_only), combination_number_upper_bound=cap, label_column=label)
+        focus = None
+        if via == 'compute_batch_ranking' and k >= 3 and rng.random() < 0.5 and all(',' not in c for c in cols):
+            # --feature_set_focus narrows the batch's feature space to the named columns (unknown names ignored) plus the label
+            focus = rng.sample([c for c in cols if c != label], rng.randint(1, k - 2)) + rng.sample(['not-a-column', 'c999'], rng.randint(0, 2))
+            if rng.random() < 0.3:
+                focus.append(label)
+            rng.shuffle(focus)
+            args.feature_set_focus = ','.join(focus)
+            S = len(requested_model([c for c in cols if c in focus or c == label], label, target_only, False)[0])
+            args.combination_number_upper_bound = cap = rng.choice([1, max(1, S - 1), S, 10 ** 6])
         ok, out, fcols, pool = h.run(frame, args, via)
         if not ok:
             continue
+        if focus is not None:
+            want = {c for c in cols if c in focus} | {label}
+            sh.check('names-in-frame', set(fcols) == want and len(fcols) == len(want), 'feature-set-focus:batch-feature-space!=focus-set+label',
+                     lambda: {'columns': cols, 'focus': focus, 'label': label, 'feature_space': fcols})
         verify(sh, h, fcols, label, target_only, heuristic, cap, out, pool, via)
         regime = 'cap<set' if cap < S else ('cap=set' if cap == S else 'cap>set')
-        sh.case((k, cols.index(label), target_only, hclass, regime, core.h64(cols)), k >= 2, 'random/%s/%s/%s' % (hclass, 'target-only' if target_only else 'pairwise', regime),
+        sh.case((k, cols.index(label), target_only, hclass, regime, core.h64(cols)), k >= 2, 'random/%s/%s/%s%s' % (hclass, 'target-only' if target_only else 'pairwise', regime, '/feature-set-focus' if focus is not None else ''),
                 sample={'columns': cols, 'label': label, 'heuristic': heuristic, 'cap': cap, 'via': via, 'n_rows': len(out.triplet_scores)} if t % 15 == 0 else None)
 
 
